@@ -28,6 +28,9 @@ Definition hinfo (m : N) : minfo :=
   (* trait P: `fn mt(&self, a: u8) -> (Uniq, &str, Uniq)`: a single-use response is TWO single-use slots, taken one after the other *)
   | 9 => {| mi_trait := "P"; mi_method := "mt"; mi_has_default := false; mi_partial_by_default := false;
             mi_has_unmock_arm := false; mi_out_clone := false; mi_more_leaves := 1 |}
+  (* R1::get<u8>, R2::get<u8>: same-named method-generic methods of two traits in one module *)
+  | 38 => mk_info "R1" "get" false false true
+  | 39 => mk_info "R2" "get" false false true
   (* trait D: delegation and unmocking inventory (harness/core/src/inventory.rs) *)
   | 10 => mk_info "D" "r0" false true true
   | 11 => mk_info "D" "r1" false false true
